@@ -1,1 +1,595 @@
+// Package convert: C13 — integers below 2^53, finite floats and booleans survive the conversion to
+// their string form and back, at the API (types.ConvertGoType) over large, completely enumerated
+// finite sets, and at the murex level (typed variable, `$var`, use in an expression) for a boundary subset.
 package convert
+
+import (
+	"fmt"
+	"math"
+	"strconv"
+	"strings"
+
+	"github.com/lmorg/murex/lang"
+	"github.com/lmorg/murex/lang/types"
+
+	"verif/checks/g1util"
+	"verif/mx"
+	"verif/vlib"
+)
+
+const maxInt = int64(1)<<53 - 1 // "magnitude below 2^53"
+
+// ---------------------------------------------------------------------------------------------
+// the enumerated sets
+
+// ints: every |n| <= small, then ±(2^k + d) and ±(10^k + d) for |d| <= 64 within ±(2^53-1).
+// (boundary values may repeat values of the dense range; a repeat is harmless.)
+func enumInts(small int64, fn func(n int64, boundary bool) bool) {
+	for n := -small; n <= small; n++ {
+		if !fn(n, false) {
+			return
+		}
+	}
+	emit := func(base int64) bool {
+		for d := int64(-64); d <= 64; d++ {
+			for _, s := range []int64{1, -1} {
+				n := s * (base + d)
+				if n > maxInt || n < -maxInt {
+					continue
+				}
+				if n >= -small && n <= small {
+					continue
+				}
+				if !fn(n, true) {
+					return false
+				}
+			}
+		}
+		return true
+	}
+	for k := 0; k <= 53; k++ {
+		if !emit(int64(1) << k) {
+			return
+		}
+	}
+	p := int64(1)
+	for k := 0; k <= 15; k++ {
+		if !emit(p) {
+			return
+		}
+		p *= 10
+	}
+}
+
+// mantissas of Hamming weight <= w or >= 52-w (52-bit field)
+func mantissas(w int) []uint64 {
+	var out []uint64
+	var rec func(start, left int, cur uint64)
+	rec = func(start, left int, cur uint64) {
+		out = append(out, cur)
+		if left == 0 {
+			return
+		}
+		for b := start; b < 52; b++ {
+			rec(b+1, left-1, cur|1<<uint(b))
+		}
+	}
+	rec(0, w, 0)
+	n := len(out)
+	const all = uint64(1)<<52 - 1
+	for i := 0; i < n; i++ {
+		out = append(out, all^out[i])
+	}
+	return out
+}
+
+// floats: every sign x every biased exponent 0..2046 x the mantissa set; then (thorough) m x 10^e
+// decimals and the neighbours of the powers of ten.
+func enumFloats(quick bool, fn func(f float64) bool) {
+	w := 1
+	if !quick {
+		w = 2
+	}
+	ms := mantissas(w)
+	for _, sign := range []uint64{0, 1} {
+		for e := uint64(0); e <= 2046; e++ {
+			for _, m := range ms {
+				if !fn(math.Float64frombits(sign<<63 | e<<52 | m)) {
+					return
+				}
+			}
+		}
+	}
+	// neighbours of the powers of ten (these need 16-17 significant digits)
+	for e := -323; e <= 308; e++ {
+		f, err := strconv.ParseFloat("1e"+strconv.Itoa(e), 64)
+		if err != nil {
+			continue
+		}
+		b := math.Float64bits(f)
+		for d := -2; d <= 2; d++ {
+			x := math.Float64frombits(uint64(int64(b) + int64(d)))
+			if math.IsInf(x, 0) || math.IsNaN(x) {
+				continue
+			}
+			if !fn(x) || !fn(-x) {
+				return
+			}
+		}
+	}
+	mMax := 99
+	if !quick {
+		mMax = 999
+	}
+	for m := 1; m <= mMax; m++ {
+		for e := -326; e <= 308; e++ {
+			f, err := strconv.ParseFloat(strconv.Itoa(m)+"e"+strconv.Itoa(e), 64)
+			if err != nil || math.IsInf(f, 0) {
+				continue
+			}
+			if !fn(f) || !fn(-f) {
+				return
+			}
+		}
+	}
+}
+
+// ---------------------------------------------------------------------------------------------
+// API-level oracle
+
+func conv(v any, dt string) (any, string) {
+	r, err := types.ConvertGoType(v, dt)
+	if err != nil {
+		return r, err.Error()
+	}
+	return r, ""
+}
+
+func sigDigits(s string) int {
+	s = strings.TrimLeft(s, "-+")
+	s = strings.Replace(s, ".", "", 1)
+	s = strings.TrimLeft(s, "0")
+	s = strings.TrimRight(s, "0")
+	return len(s)
+}
+
+func lenBucket(s string) string {
+	switch {
+	case len(s) <= 17:
+		return "len<=17"
+	case len(s) <= 40:
+		return "len<=40"
+	case len(s) <= 200:
+		return "len<=200"
+	}
+	return "len>200"
+}
+
+func checkIntAPI(c *vlib.Ctx, n64 int64, boundary bool) {
+	n := int(n64)
+	w := strconv.FormatInt(n64, 10)
+	sv, e := conv(n, types.String)
+	s, ok := sv.(string)
+	nt := boundary || n64 < 0 || len(w) >= 16
+	c.Eval(nt, fmt.Sprintf("int digits=%d neg=%v", len(strings.TrimLeft(w, "-")), n64 < 0))
+	if e != "" || !ok {
+		c.Violation("int-to-str", "int "+w, fmt.Sprintf("ConvertGoType(%d, str) = %#v err=%s", n, sv, e))
+		return
+	}
+	bad := func(step string, got any, e string) {
+		c.Violation("int-roundtrip", "int "+w, fmt.Sprintf("%s: string form %q converted back gives %#v (err=%q), expected %d", step, s, got, e, n))
+	}
+	if b, e := conv(s, types.Integer); e != "" || b != any(n) {
+		bad("str->int", b, e)
+		return
+	}
+	if b, e := conv([]byte(s), types.Integer); e != "" || b != any(n) {
+		bad("[]byte->int", b, e)
+		return
+	}
+	for _, dt := range []string{types.Number, types.Float} {
+		if b, e := conv(s, dt); e != "" || b != any(float64(n)) {
+			bad("str->"+dt, b, e)
+			return
+		}
+	}
+	// through the number type: int -> num -> str -> int
+	fv, e := conv(n, types.Number)
+	if e != "" || fv != any(float64(n)) {
+		c.Violation("int-roundtrip", "int "+w, fmt.Sprintf("ConvertGoType(%d, num) = %#v err=%s", n, fv, e))
+		return
+	}
+	sf, e := conv(fv, types.String)
+	s2, _ := sf.(string)
+	if b, e2 := conv(s2, types.Integer); e != "" || e2 != "" || b != any(n) {
+		c.Violation("int-roundtrip", "int "+w, fmt.Sprintf("int->num->str gives %q, back to int gives %#v (err=%q %q), expected %d", s2, b, e, e2, n))
+		return
+	}
+	if b, e := conv(fv, types.Integer); e != "" || b != any(n) {
+		bad("num->int", b, e)
+	}
+}
+
+func checkFloatAPI(c *vlib.Ctx, f float64) {
+	w := "float " + strconv.FormatFloat(f, 'g', -1, 64) + " bits=" + strconv.FormatUint(math.Float64bits(f), 16)
+	sv, e := conv(f, types.String)
+	s, ok := sv.(string)
+	if e != "" || !ok {
+		c.Eval(true, "float error")
+		c.Violation("float-to-str", w, fmt.Sprintf("ConvertGoType(%v, str) = %#v err=%s", f, sv, e))
+		return
+	}
+	sd := sigDigits(s)
+	exp := int(math.Float64bits(f)>>52) & 0x7ff
+	nt := sd >= 16 || len(s) > 21 || exp == 0 || exp == 2046
+	kind := "normal"
+	if exp == 0 {
+		kind = "subnormal"
+		if f == 0 {
+			kind = "zero"
+		}
+	}
+	c.Eval(nt, fmt.Sprintf("float %s sig=%d %s neg=%v", kind, sd, lenBucket(s), math.Signbit(f)))
+	for _, dt := range []string{types.Number, types.Float} {
+		for _, in := range []any{s, []byte(s)} {
+			b, e := conv(in, dt)
+			g, ok := b.(float64)
+			switch {
+			case e != "" || !ok:
+				c.Violation("float-roundtrip", w, fmt.Sprintf("string form %q does not convert back to %s: %#v err=%s", s, dt, b, e))
+				return
+			case g != f:
+				c.Violation("float-roundtrip", w, fmt.Sprintf("string form %q converts back to %v (bits %x), expected %v (bits %x)", s, g, math.Float64bits(g), f, math.Float64bits(f)))
+				return
+			case math.Signbit(g) != math.Signbit(f):
+				c.Extra("zero lost its sign in the round trip (numerically equal: accepted)", 1)
+			}
+		}
+	}
+	if b, e := conv(f, types.Number); e != "" || b != any(f) {
+		c.Violation("float-roundtrip", w, fmt.Sprintf("ConvertGoType(f, num) = %#v err=%s", b, e))
+	}
+}
+
+func checkBoolAPI(c *vlib.Ctx, v bool) {
+	w := fmt.Sprintf("bool %v", v)
+	c.Eval(false, w)
+	for _, via := range []string{types.String, types.Integer, types.Number, types.Float, types.Boolean, types.Generic} {
+		m, e := conv(v, via)
+		if e != "" {
+			c.Violation("bool-roundtrip", w, fmt.Sprintf("ConvertGoType(%v, %s): %s", v, via, e))
+			continue
+		}
+		ins := []any{m}
+		if s, ok := m.(string); ok {
+			ins = append(ins, []byte(s), []rune(s))
+		}
+		for _, in := range ins {
+			b, e := conv(in, types.Boolean)
+			if e != "" || b != any(v) {
+				c.Violation("bool-roundtrip", w, fmt.Sprintf("%v -> %s gives %#v, back to bool gives %#v (err=%q)", v, via, m, b, e))
+			}
+		}
+	}
+}
+
+// ---------------------------------------------------------------------------------------------
+// murex-level subset
+
+type mxCase struct {
+	witness string
+	kind    string // int | float | bool
+	dt      string // int num float bool
+	form    string // api-set | set | literal
+	i       int64
+	f       float64
+	b       bool
+	text    string // independent string form (strconv)
+}
+
+func murexValues(quick bool, fn func(cs mxCase) bool) {
+	emit := func(cs mxCase) bool {
+		cs.witness = fmt.Sprintf("murex %s %s %s", cs.form, cs.dt, cs.text)
+		return fn(cs)
+	}
+	// integers
+	seen := map[int64]bool{}
+	var ints []int64
+	add := func(n int64) {
+		if n <= maxInt && n >= -maxInt && !seen[n] {
+			seen[n] = true
+			ints = append(ints, n)
+		}
+	}
+	for n := int64(-20); n <= 20; n++ {
+		add(n)
+	}
+	dmax := int64(1)
+	if !quick {
+		dmax = 3
+	}
+	for k := 0; k <= 53; k++ {
+		for d := -dmax; d <= dmax; d++ {
+			add(int64(1)<<k + d)
+			add(-(int64(1)<<k + d))
+		}
+	}
+	p := int64(1)
+	for k := 0; k <= 15; k++ {
+		for d := -dmax; d <= dmax; d++ {
+			add(p + d)
+			add(-(p + d))
+		}
+		p *= 10
+	}
+	for _, n := range ints {
+		t := strconv.FormatInt(n, 10)
+		for _, dt := range []string{"int", "num"} {
+			for _, form := range []string{"api-set", "set", "literal"} {
+				if form == "literal" && dt == "int" {
+					continue // a literal in an expression is always a num
+				}
+				if !emit(mxCase{kind: "int", dt: dt, form: form, i: n, f: float64(n), text: t}) {
+					return
+				}
+			}
+		}
+	}
+	// floats
+	var fl []float64
+	fseen := map[uint64]bool{}
+	addf := func(f float64) {
+		if math.IsInf(f, 0) || math.IsNaN(f) {
+			return
+		}
+		for _, x := range []float64{f, -f} {
+			if !fseen[math.Float64bits(x)] {
+				fseen[math.Float64bits(x)] = true
+				fl = append(fl, x)
+			}
+		}
+	}
+	step := uint64(64)
+	if !quick {
+		step = 8
+	}
+	const all = uint64(1)<<52 - 1
+	for e := uint64(0); e <= 2046; e++ {
+		if e%step != 0 && e > 3 && e < 2043 && !(e >= 1020 && e <= 1080) {
+			continue
+		}
+		for _, m := range []uint64{0, 1, all, 1 << 51, 0x5555555555555, all - 1, 0x999999999999a} {
+			addf(math.Float64frombits(e<<52 | m))
+		}
+	}
+	for _, s := range []string{"0.1", "0.2", "0.3", "1.5", "2.5", "0.5", "3.14159", "1e21", "1e22", "1e-7", "123456.789", "0.30000000000000004", "1.7976931348623157e308", "5e-324", "2.2250738585072014e-308"} {
+		f, _ := strconv.ParseFloat(s, 64)
+		addf(f)
+		addf(1 / f)
+	}
+	for _, f := range fl {
+		t := strconv.FormatFloat(f, 'f', -1, 64)
+		for _, dt := range []string{"num", "float"} {
+			for _, form := range []string{"api-set", "set", "literal"} {
+				if form == "literal" && dt == "float" {
+					continue
+				}
+				if !emit(mxCase{kind: "float", dt: dt, form: form, f: f, text: t}) {
+					return
+				}
+			}
+		}
+	}
+	for _, b := range []bool{true, false} {
+		for _, form := range []string{"api-set", "set", "literal"} {
+			if !emit(mxCase{kind: "bool", dt: "bool", form: form, b: b, text: strconv.FormatBool(b)}) {
+				return
+			}
+		}
+	}
+}
+
+func numOf(v any) (float64, bool) {
+	switch t := v.(type) {
+	case float64:
+		return t, true
+	case int:
+		return float64(t), true
+	}
+	return 0, false
+}
+
+func checkMurex(c *vlib.Ctx, cs mxCase, sample bool) {
+	opt := &mx.Opt{}
+	block := ""
+	switch cs.form {
+	case "api-set":
+		var gv any
+		switch {
+		case cs.kind == "bool":
+			gv = cs.b
+		case cs.dt == "int":
+			gv = int(cs.i)
+		default:
+			gv = cs.f
+		}
+		opt.Setup = func(f *lang.Fork) {
+			if err := f.Variables.Set(f.Process, "v", gv, cs.dt); err != nil {
+				c.HarnessError("Variables.Set: %v", err)
+			}
+		}
+	case "set":
+		block = "set " + cs.dt + " v=" + cs.text + "\n"
+	case "literal":
+		block = "v = " + cs.text + "\n"
+	}
+	if cs.kind == "bool" {
+		block += "out $v\nw = ($v == true)\nx = $v"
+	} else {
+		block += "out $v\nw = $v + 0\nx = $v"
+	}
+	r, vars := g1util.RunVars(block, opt, "v", "w", "x")
+	v, w, x := vars[0], vars[1], vars[2]
+	nt := cs.kind != "bool" && (sigDigits(cs.text) >= 16 || len(cs.text) > 21 || strings.HasPrefix(cs.text, "-"))
+	outcome := fmt.Sprintf("murex %s/%s/%s exit=%d", cs.kind, cs.dt, cs.form, r.Exit)
+	c.Eval(nt, outcome)
+	if sample {
+		c.Sample(map[string]any{"case": cs.witness, "block": vlib.Clip(block, 120), "stdout": vlib.Clip(r.Stdout, 60), "w": fmt.Sprint(w.Value), "x": fmt.Sprint(x.Value)})
+	}
+	fail := func(clause, f string, a ...any) {
+		c.Violation(clause, cs.witness, fmt.Sprintf(f, a...)+" | block: "+vlib.Clip(strings.ReplaceAll(block, "\n", "; "), 200)+" | "+vlib.Clip(r.Stderr, 300))
+	}
+	switch {
+	case r.Hang:
+		fail("terminates", "caller blocked: %s", r.HangStack)
+		return
+	case mx.HasPanicText(r.Stderr) || mx.HasPanicText(r.Err):
+		fail("no-panic", "%s", r.String())
+		return
+	case r.Exit != 0 || !v.Set || !w.Set || !x.Set:
+		fail("murex-evaluates", "exit=%d v.set=%v w.set=%v x.set=%v", r.Exit, v.Set, w.Set, x.Set)
+		return
+	}
+	out := strings.TrimSuffix(r.Stdout, "\n")
+	switch cs.kind {
+	case "bool":
+		if out != cs.text {
+			fail("murex-read", "`out $v` printed %q, expected %q", out, cs.text)
+		}
+		if b, ok := w.Value.(bool); !ok || b != cs.b {
+			fail("murex-expression", "($v == true) is %#v, expected %v", w.Value, cs.b)
+		}
+		if b, ok := x.Value.(bool); !ok || b != cs.b {
+			fail("murex-copy", "x = $v holds %#v (%s), expected %v", x.Value, x.DataType, cs.b)
+		}
+		if b, ok := v.Value.(bool); !ok || b != cs.b {
+			fail("murex-store", "v holds %#v (%s), expected %v", v.Value, v.DataType, cs.b)
+		}
+	default:
+		want := cs.f
+		if sv, ok := numOf(v.Value); !ok || sv != want {
+			fail("murex-store", "v holds %#v (%s), expected %v", v.Value, v.DataType, want)
+			return
+		}
+		pf, err := strconv.ParseFloat(out, 64)
+		if err != nil || pf != want {
+			fail("murex-read", "`out $v` printed %q which denotes %v, expected %v (%s)", out, pf, want, cs.text)
+		} else if cs.dt == "int" {
+			if pi, err := strconv.ParseInt(out, 10, 64); err != nil || pi != cs.i {
+				fail("murex-read", "`out $v` of an int printed %q, expected %d", out, cs.i)
+			}
+		}
+		if wv, ok := numOf(w.Value); !ok || wv != want {
+			fail("murex-expression", "$v + 0 is %#v, expected %v", w.Value, want)
+		}
+		if xv, ok := numOf(x.Value); !ok || xv != want {
+			fail("murex-copy", "x = $v holds %#v (%s), expected %v", x.Value, x.DataType, want)
+		}
+	}
+}
+
+// ---------------------------------------------------------------------------------------------
+
+func init() {
+	vlib.Register(&vlib.Check{
+		ID: "C13", Engine: "E2",
+		Rule: "API level, enumerated completely: (ints) every |n| <= 2^20 [thorough 2^24] and ±(2^k+d), ±(10^k+d) for k<=53/15, |d|<=64 inside ±(2^53-1): int->str->int, ->num, ->float, []byte form, int->num->str->int, num->int through types.ConvertGoType; " +
+			"(floats) every sign x every biased exponent 0..2046 (all subnormal and normal binades, ±0, min, max) x every 52-bit mantissa of Hamming weight <=1 or >=51 [thorough <=2 or >=50], plus ±2 ulp around every power of ten 1e-323..1e308 and m x 10^e for m<=99 [thorough 999], e=-326..308: float->str->num/float must give the identical value (bit-equal; a zero that loses its sign is counted, not failed); (bools) through str, int, num, float, bool, generic and back. " +
+			"murex level: boundary subset (|n|<=20, ±(2^k+d), ±(10^k+d) |d|<=1 [3]; floats: 7 mantissa patterns x every 64th [8th] binade and the first/last/middle ones x both signs, 15 named decimals and their reciprocals; both booleans) x data types {int,num | num,float | bool} x three ways of storing (Variables.Set with the Go value, `set <type> v=<text>`, expression literal `v = <text>`); the block `out $v; w = $v + 0; x = $v` is run and stdout, v, w, x are read back exactly through the variable table. " +
+			"non-trivial = negative, >= 16 significant digits, a string form longer than 21 characters (padding zeros), subnormal/extreme binade, or a 2^k/10^k boundary integer",
+		Run:    run,
+		Replay: replay,
+		Assumptions: []string{
+			"the string form is the one murex itself produces (ConvertGoType(..., str)); at the murex level the text written into source is strconv's shortest 'f' form",
+			"NaN and ±Inf are outside the statement (finite floats)",
+		},
+	})
+}
+
+func run(c *vlib.Ctx) {
+	mx.Init(c.WorkDir)
+	small := int64(1) << 20
+	if !c.Quick() {
+		small = 1 << 24
+	}
+	stop := false
+	k := 0
+	tick := func() bool {
+		k++
+		if k&0xffff == 0 && c.Expired() {
+			stop = true
+		}
+		return !stop
+	}
+	enumInts(small, func(n int64, boundary bool) bool {
+		if c.Next() {
+			checkIntAPI(c, n, boundary)
+		}
+		return tick()
+	})
+	if stop {
+		return
+	}
+	enumFloats(c.Quick(), func(f float64) bool {
+		if c.Next() {
+			checkFloatAPI(c, f)
+		}
+		return tick()
+	})
+	if stop {
+		return
+	}
+	if c.Shard == 0 {
+		checkBoolAPI(c, true)
+		checkBoolAPI(c, false)
+	}
+	n := 0
+	murexValues(c.Quick(), func(cs mxCase) bool {
+		if !c.Next() {
+			return true
+		}
+		n++
+		if n&0xff == 0 && c.Expired() {
+			return false
+		}
+		checkMurex(c, cs, n%401 == 1)
+		return true
+	})
+}
+
+// replay: witness is "int <n>", "float <g> bits=<hex>", "bool <v>" or "murex <form> <dt> <text>".
+func replay(c *vlib.Ctx, w string) {
+	mx.Init(c.WorkDir)
+	f := strings.Fields(w)
+	switch {
+	case len(f) == 2 && f[0] == "int":
+		n, err := strconv.ParseInt(f[1], 10, 64)
+		if err == nil {
+			checkIntAPI(c, n, true)
+			return
+		}
+	case len(f) == 3 && f[0] == "float" && strings.HasPrefix(f[2], "bits="):
+		b, err := strconv.ParseUint(strings.TrimPrefix(f[2], "bits="), 16, 64)
+		if err == nil {
+			checkFloatAPI(c, math.Float64frombits(b))
+			return
+		}
+	case len(f) == 2 && f[0] == "bool":
+		checkBoolAPI(c, f[1] == "true")
+		return
+	case len(f) == 4 && f[0] == "murex":
+		found := false
+		murexValues(false, func(cs mxCase) bool {
+			if cs.witness == w {
+				found = true
+				checkMurex(c, cs, false)
+				return false
+			}
+			return true
+		})
+		if found {
+			return
+		}
+	}
+	fmt.Println("witness not in the enumeration space")
+}
